@@ -197,10 +197,9 @@ func runHistory(route string, prologue []action, acts []action) (string, string,
 			prefixes = append(prefixes, "__gensym")
 		}
 	}
-	tab := root.VerifSymtableCopy()
-	size0 := len(tab)
+	size0 := root.VerifSymtableSize()
 	var pre []string
-	for nm, num := range tab {
+	root.VerifSymtableEach(func(nm string, num int) {
 		keep := num >= minc || names[nm]
 		if !keep {
 			for _, p := range prefixes {
@@ -213,7 +212,7 @@ func runHistory(route string, prologue []action, acts []action) (string, string,
 		if keep {
 			pre = append(pre, encName(nm)+":"+strconv.Itoa(num))
 		}
-	}
+	})
 	sort.Strings(pre)
 
 	var mops, astr, outs []string
@@ -293,10 +292,10 @@ func runHistory(route string, prologue []action, acts []action) (string, string,
 		}
 	}
 	inv := "ok"
+	if d := root.VerifTablesInverse(); d != "" {
+		inv = "BROKEN"
+	}
 	for _, e := range fam.envs {
-		if d := e.VerifTablesInverse(); d != "" {
-			inv = "BROKEN"
-		}
 		if !e.VerifSharesTables(root) {
 			inv = "NOTSHARED"
 		}
@@ -543,7 +542,10 @@ func main() {
 	out.Extra["exhaustive_grow_histories"] = cnt
 	// B: ready 3-member family, one more name
 	proB := []action{{'D', 0, ""}, {'C', 0, ""}}
-	poolB := []string{"a", "b", shaped("g", 0), shaped("g", 1), shaped("g", 2)}
+	poolB := []string{"a", "b", shaped("g", 0), shaped("g", 1)}
+	if a.Tier == "thorough" {
+		poolB = append(poolB, shaped("g", 2))
+	}
 	cnt = 0
 	enumerate(depth-1, 3, 3, poolB, []string{"g"}, nil, func(acts []action) {
 		cnt++
@@ -553,7 +555,10 @@ func main() {
 	out.Extra["exhaustive_three_histories"] = cnt
 	// B2: a member whose counter lags (the root interned two names after the duplicates were made)
 	proC := []action{{'D', 0, ""}, {'M', 0, "x"}, {'M', 0, "y"}, {'C', 0, ""}}
-	poolC := []string{"a", shaped("g", 0), shaped("g", 2), shaped("g", 3)}
+	poolC := []string{"a", shaped("g", 2), shaped("g", 3)}
+	if a.Tier == "thorough" {
+		poolC = append(poolC, shaped("g", 0))
+	}
 	cnt = 0
 	enumerate(depth-1, 3, 3, poolC, []string{"g"}, nil, func(acts []action) {
 		cnt++
@@ -581,6 +586,7 @@ func main() {
 			cur = scriptN0
 		}
 		var acts []action
+		var used []string
 		for k := 0; k < n; k++ {
 			i := r.Intn(members)
 			shapedName := func() string {
@@ -601,7 +607,9 @@ func main() {
 					kind = "SR"[r.Intn(2)]
 				}
 				var nm string
-				if r.Intn(2) == 0 {
+				if len(used) > 0 && r.Intn(4) == 0 {
+					nm = used[r.Intn(len(used))]
+				} else if r.Intn(2) == 0 {
 					nm = shapedName()
 				} else if script {
 					nm = []string{"a", "b", "c", "x1", "g", "__gensym", "g007", "car", "gensym"}[r.Intn(9)]
@@ -609,6 +617,7 @@ func main() {
 					nm = plain[r.Intn(len(plain))]
 				}
 				acts = append(acts, action{kind, i, nm})
+				used = append(used, nm)
 				cur++
 			case c < 10 && script:
 				acts = append(acts, action{'m', i, ""})
@@ -633,6 +642,32 @@ func main() {
 	}
 	for k := 0; k < nscript; k++ {
 		emitCase("script", nil, randHistory(rng.Fork(), true), "random:script")
+	}
+	// symbols that exist already (builtins, reserved words, operators; numbers from 1 up to the
+	// counter): re-interned from several members, compared pairwise by the interpreter
+	{
+		e := zygo.NewZlisp()
+		e.StandardSetup()
+		lib.Eval(e, macroSetup, 100000)
+		var all []string
+		e.VerifSymtableEach(func(nm string, num int) {
+			if len(nm) > 0 && len(nm) < 40 {
+				all = append(all, nm)
+			}
+		})
+		sort.Strings(all)
+		nsample := 12
+		if a.Tier == "thorough" {
+			nsample = 200
+		}
+		for k := 0; k < nsample; k++ {
+			r := rng.Fork()
+			acts := []action{{'D', 0, ""}, {'C', 0, ""}}
+			for j := 0; j < 36; j++ {
+				acts = append(acts, action{'M', r.Intn(3), all[r.Intn(len(all))]})
+			}
+			emitCase("script", nil, acts, "table-sample")
+		}
 	}
 	flush()
 	out.Close(a.Stats)
